@@ -124,7 +124,15 @@ def _pattern_value(e, env):
     if isinstance(e, ast.Call) and isinstance(e.func, ast.Attribute) and e.func.attr == 'format' and isinstance(e.func.value, ast.Constant) and isinstance(e.func.value.value, str):
         return e.func.value.value.replace('{}', 'X')
     if isinstance(e, ast.JoinedStr):
-        return ''.join(str(x.value) if isinstance(x, ast.Constant) else 'X' for x in e.values)
+        def piece(x):
+            if isinstance(x, ast.Constant):
+                return str(x.value)
+            if isinstance(x, ast.FormattedValue):
+                v_ = _pattern_value(x.value, env)
+                if v_ is not None:
+                    return v_          # a constant (or constant-built) piece interpolated into the template
+            return 'X'
+        return ''.join(piece(x) for x in e.values)
     if isinstance(e, ast.BinOp) and isinstance(e.op, ast.Add):
         l, r = _pattern_value(e.left, env), _pattern_value(e.right, env)
         if l is not None or r is not None:
